@@ -494,8 +494,8 @@ class JSON(Term):
     def _recursive_get_sql(self, value: Any, **kwargs: Any) -> str:
         if isinstance(value, dict):
             return self._get_dict_sql(value, **kwargs)
-        if isinstance(value, list):
-            return self._get_list_sql(value, **kwargs)
+        if isinstance(value, (list, tuple)):
+            return self._get_list_sql(value, **kwargs)  # type:ignore[arg-type]
         if isinstance(value, str):
             return self._get_str_sql(value, **kwargs)
         if value is None or isinstance(value, bool):
@@ -506,7 +506,10 @@ class JSON(Term):
     def _get_dict_sql(self, value: dict, **kwargs: Any) -> str:
         pairs = [
             "{key}:{value}".format(
-                key=self._recursive_get_sql(k, **kwargs),
+                # a JSON object's keys are strings: 1 -> "1", None -> "null", True -> "true" (what json.dumps makes of them)
+                key=self._get_str_sql(
+                    k if isinstance(k, str) else self._recursive_get_sql(k, **kwargs), **kwargs
+                ),
                 value=self._recursive_get_sql(v, **kwargs),
             )
             for k, v in value.items()
